@@ -9,36 +9,51 @@ from harness.core.trees import Universe
 
 PID = "C02"
 RULE = ("a case is one flat dataclass (1-6 fields over {int,float,str,bool,Enum,Literal,Path,List[T],fixed/variadic Tuple, "
-        "Optional of these, a few Unions}) x an assignment of type-correct values (boundaries: 0, negatives, 10^30, '', "
-        "blanks, '=', non-ASCII, inf, 1e-07, empty containers) to a subset of fields x a permutation of the option segments "
-        "x the `--opt value` / `--opt=value` spelling, rendered to canonical tokens; the real parse must return exactly the "
-        "assignment over the defaults. Non-trivial = >= 2 fields set or a container / optional / enum / literal value; "
-        "distinct by canonical JSON.")
+        "Optional of these, a few Unions; in a separate stream also Optional[Literal], List[Literal] and choice() fields with "
+        "str / non-str / dict / Enum options}) x an assignment of type-correct values (boundaries: 0, negatives, 10^30, '', "
+        "blanks, '=', non-ASCII, inf, 1e-07, empty containers, bare `--opt` for None) to a subset of fields x a permutation of "
+        "the option segments x the `--opt value` / `--opt=value` spelling x the parser's dash variant / generation mode "
+        "(option strings spelled accordingly), rendered to canonical tokens; the real parse must return exactly the "
+        "assignment (same exact Python type, `type(v) is T`) over the defaults. A Literal value whose str() is shared with a "
+        "later value of the same Literal (Literal[0, \"0\"]) has no token of its own and is replaced by the value its token "
+        "denotes. Non-trivial = >= 2 fields set or a container / optional / enum / literal value; distinct by canonical JSON.")
 ASSUMPTIONS = ["float()/repr round trip of CPython (float tokens and their parsed repr are supplied to the model as a table)",
                "pathlib.Path(str) keeps simple path strings", "int() on ASCII sign+digits"]
 TRUSTED = ["stdlib argparse (its optional-argument fragment is modelled in Model/Engine.lean and compared end to end)"]
 EXHAUSTIVE = {"quick": False, "thorough": False}
 THOROUGH_ROUNDS = 3   # thorough tier: this many generator passes with derived PRNG states (vcheck)
 MANIFEST = {
-    "text": ("Proof (full on the modelled fragment; float parsing is a named parameter): Lean model of argparse's optional-argument engine (lexing, nargs shapes, type/choices, "
-             "defaults), of get_arg_options / postprocess per annotation, and of the whole flat pipeline; theorems: the "
-             "canonical rendering of any well-typed assignment parses back to exactly that assignment over the defaults, "
-             "for any number of fields and any order of the option segments (induction over the segment list; one lemma per "
-             "nargs shape that greedy matching consumes exactly the segment), int print/parse round trip for every integer, order "
-             "independence, per-annotation lemmas (List, Tuple[T,...], Enum, Optional) and their composition through the table "
-             "construction into the flat pipeline (c02_flat_pipeline, c02_flat_list_field). Float parsing is a parameter (hypothesis RoundTrips). The pipeline model is tied to the code by "
-             "the end-to-end op fields.parse and the unit op fields.argopts (real argparse actions of every field), and the "
-             "property itself is evaluated on every real parse."),
+    "text": ("Proof (closed headline on the modelled fragment; float/Path token parsing is a named parameter): Lean model of "
+             "argparse's optional-argument engine (lexing, nargs shapes, type/choices, defaults), of get_arg_options / "
+             "postprocess per annotation, and of the whole flat pipeline. Headline c02_roundtrip: for ONE flat dataclass "
+             "whose fields are plain int/float/str/bool/Path/Enum, Literal, List[T], Tuple[T,...], Tuple[T1..Tn] "
+             "(heterogeneous: the stateful parse_tuple closure, counters threaded), Optional of the non-Literal ones, with "
+             "keepable defaults (DefaultOk), the canonical command line of ANY assignment (any subset containing the required "
+             "fields, any order, `--opt v` or `--opt=v` per option, plain negative numbers included, only tokens argparse "
+             "itself lexes as options excluded) parses to exactly the written values (typed) over the defaults — every "
+             "hypothesis of the engine theorem is discharged (SegOk per annotation, finish quiet, initial namespace). "
+             "Corollaries: order + spelling independence end to end (c02_order_spelling_independent), written / unmentioned "
+             "clauses. int print/parse round trip for every integer; every integer token is an argument token. "
+             "Witnesses of what the code does NOT satisfy: Optional[Literal]/List[Literal] and choice() with non-str "
+             "options (open findings). The pipeline model is tied to the code by the end-to-end op fields.parse, the unit op "
+             "fields.argopts (real argparse actions of every field) and engine.run (the hand-written actions of the open "
+             "findings against the real parser); the property itself is evaluated on every real parse."),
     "note": ("Trusted: Lean kernel + standard axioms; harness. Modelled not verified: argparse 3.12.1 "
              "_parse_known_args/_parse_optional/_get_values (optional fragment), field_wrapper.py:231-533, "
-             "field_parsing.py:70-298, utils.py:198-227,568-614. Unmodelled and excluded from theorems: positionals, "
-             "single-dash clusters, non-ASCII digits, path normalisation."),
+             "field_parsing.py:70-298, utils.py:198-227,568-614. Hypotheses left in the headline: the option string written "
+             "is one the table maps to the field (LexOk'), float/Path tokens have an entry in the parsing table (FEnv). "
+             "Unmodelled and excluded from theorems: positionals, single-dash clusters, non-ASCII digits, path "
+             "normalisation, Union fields, choice() metadata."),
     "technique": "Lean 4 round-trip theorem by induction over option segments + differential check on real parses",
     "design_ref": "DESIGN.md section 5, C02",
 }
 
+DEFAULT_CFG = {"dash": "UNDERSCORE", "gen": "FLAT", "nest": "DEFAULT"}
+RENAME = {"lr": "learning_rate", "size": "batch_size", "name": "run_name", "items": "num_items", "path": "out_path", "q": "q_"}
+
 
 def gen_fields(rng, n=None):
+    """(also used by C04: keep the PRNG consumption stable)"""
     n = n or rng.choice([1, 2, 2, 3, 3, 4, 5, 6])
     names = rng.sample(G.NAMES, n)
     fields = []
@@ -64,6 +79,93 @@ def gen_fields(rng, n=None):
     return fields
 
 
+# -- extended kinds (own generators wrapping G.*; candidates for gen_types.py) -----------------------------------
+
+LITERALS = [
+    [{"t": "int", "v": "1"}, {"t": "int", "v": "2"}, {"t": "int", "v": "3"}],
+    [{"t": "str", "v": "a"}, {"t": "str", "v": "b"}],
+    [{"t": "str", "v": "bob"}, {"t": "int", "v": "0"}, {"t": "bool", "v": True}],
+    [{"t": "bool", "v": True}, {"t": "bool", "v": False}],
+]
+
+
+def is_wrapped_literal(t) -> bool:
+    return (t["k"] == "opt" and t["inner"]["k"] == "literal") or (t["k"] == "list" and t["item"]["k"] == "literal")
+
+
+def gen_special_field(rng, nm):
+    """Optional[Literal], List[Literal], choice(str…), choice(non-str…), choice(dict), choice(Enum)"""
+    kind = rng.choice(["optlit", "listlit", "choice-str", "choice-nonstr", "choice-mixed", "choice-dict", "choice-enum"])
+    if kind == "optlit":
+        vals = [dict(v) for v in rng.choice(LITERALS)]
+        t = {"k": "opt", "inner": {"k": "literal", "vals": vals}}
+        d = {"kind": "value", "v": rng.choice([{"t": "none"}, dict(rng.choice(vals))])}
+        return {"name": nm, "ty": t, "default": d}
+    if kind == "listlit":
+        vals = [dict(v) for v in rng.choice(LITERALS)]
+        t = {"k": "list", "item": {"k": "literal", "vals": vals}}
+        d = {"kind": "value", "v": {"t": "list", "v": [dict(rng.choice(vals)) for _ in range(rng.choice([0, 0, 1, 2]))]}}
+        return {"name": nm, "ty": t, "default": d}
+    if kind in ("choice-str", "choice-nonstr", "choice-mixed"):
+        if kind == "choice-str":
+            opts = [{"t": "str", "v": s} for s in rng.sample(["a", "b", "bob", "x_y", "0", "None", ""], rng.randint(2, 4))]
+            ty = {"k": "str"}
+        elif kind == "choice-nonstr":
+            which = rng.choice(["int", "float", "bool"])
+            opts = {"int": [{"t": "int", "v": str(i)} for i in (1, 2, 3)],
+                    "float": [{"t": "float", "v": "0.5"}, {"t": "float", "v": "1.5"}],
+                    "bool": [{"t": "bool", "v": True}, {"t": "bool", "v": False}]}[which]
+            ty = {"k": which}
+        else:
+            opts = [{"t": "str", "v": "a"}, {"t": "int", "v": "1"}, {"t": "str", "v": "b"}]
+            ty = {"k": "any"}
+        dv = dict(rng.choice(opts))
+        d = {"kind": "value", "v": dv} if rng.random() < 0.8 else {"kind": "missing"}
+        return {"name": nm, "ty": ty, "default": d, "choice": {"kind": "plain", "options": opts}}
+    if kind == "choice-dict":
+        items = [["one", {"t": "int", "v": "1"}], ["zero", {"t": "int", "v": "0"}], ["two", {"t": "int", "v": "2"}]]
+        if rng.random() < 0.5:
+            items = [["yes", {"t": "bool", "v": True}], ["no", {"t": "bool", "v": False}], ["empty", {"t": "str", "v": ""}]]
+        k = rng.randrange(len(items))
+        return {"name": nm, "ty": {"k": "any"}, "default": {"kind": "value", "v": dict(items[k][1])},
+                "choice": {"kind": "dict", "items": items, "default_key": items[k][0]}}
+    e = dict(rng.choice(G.ENUMS[:4]))
+    return {"name": nm, "ty": e, "default": {"kind": "value", "v": {"t": "enum", "cls": e["cls"], "v": rng.choice(e["members"])}},
+            "choice": {"kind": "enum", "cls": e["cls"]}}
+
+
+def gen_fields_ext(rng):
+    """1-2 special fields + 0-3 ordinary ones"""
+    base = gen_fields(rng, n=rng.choice([1, 2, 3, 4]))
+    k = min(len(base), rng.choice([1, 1, 2]))
+    fields = [gen_special_field(rng, f["name"]) for f in base[:k]] + base[k:]
+    fields.sort(key=lambda f: f["default"]["kind"] != "missing")
+    return fields
+
+
+def gen_special_value(rng, f):
+    """(expected value, tokens or None)"""
+    ch = f.get("choice")
+    if ch is None:
+        t = f["ty"]
+        if t["k"] == "opt":
+            if rng.random() < 0.2:
+                return {"t": "none"}, None
+            v = dict(rng.choice(t["inner"]["vals"]))
+            return v, [G.token(v)]
+        vs = [dict(rng.choice(t["item"]["vals"])) for _ in range(rng.choice([0, 1, 2, 3]))]
+        return {"t": "list", "v": vs}, [G.token(x) for x in vs]
+    if ch["kind"] == "plain":
+        v = dict(rng.choice(ch["options"]))
+        return v, [G.token(v)]
+    if ch["kind"] == "dict":
+        key, v = rng.choice(ch["items"])
+        return dict(v), [key]
+    e = f["ty"]
+    m = rng.choice(e["members"])
+    return {"t": "enum", "cls": e["cls"], "v": m}, [m]
+
+
 def enums_of(fields):
     out = {}
 
@@ -82,13 +184,24 @@ def enums_of(fields):
     return out
 
 
-def render(fields, asg, order, eq_flags):
+def option_for(nm, cfg=None, alt=False):
+    """an option string of field `nm` of a class registered at dest `config` under the parser settings `cfg`"""
+    cfg = cfg or DEFAULT_CFG
+    gen, dash = cfg.get("gen", "FLAT"), cfg.get("dash", "UNDERSCORE")
+    nested = gen == "NESTED" or (gen == "BOTH" and alt)
+    base = ("config." + nm) if nested else nm
+    if dash == "DASH" or (dash == "UNDERSCORE_AND_DASH" and alt):
+        base = base.replace("_", "-")
+    return ("-" if len(nm) == 1 else "--") + base
+
+
+def render(fields, asg, order, eq_flags, toks_of=None, cfg=None, alts=None):
     """canonical argv for assignment asg (name -> value) in the given field order"""
     argv = []
-    for nm, eq in zip(order, eq_flags):
+    for i, (nm, eq) in enumerate(zip(order, eq_flags)):
         v = asg[nm]
-        toks = G.tokens(v)
-        opt = ("-" if len(nm) == 1 else "--") + nm
+        toks = toks_of[nm] if toks_of and nm in toks_of else G.tokens(v)
+        opt = option_for(nm, cfg, bool(alts and alts[i])) if cfg else ("-" if len(nm) == 1 else "--") + nm
         if toks is None:
             argv.append(opt)  # bare option: only generated for Optional scalars (stores None)
         elif eq and len(toks) == 1:
@@ -115,6 +228,7 @@ def expressible(fields, asg):
 
 
 def make_case(rng, fields, api="parse", cfg=None):
+    """(also used by C04: keep the PRNG consumption stable)"""
     asg = {}
     for f in fields:
         must = f["default"]["kind"] == "missing" and f["ty"]["k"] != "opt"
@@ -132,15 +246,99 @@ def make_case(rng, fields, api="parse", cfg=None):
     rng.shuffle(order)
     eq = [rng.random() < 0.5 for _ in order]
     return {"op": "fields.parse", "case": {"fields": fields, "asg": asg, "order": order, "eq": eq, "api": api,
-                                           "cfg": cfg or {"dash": "UNDERSCORE", "gen": "FLAT", "nest": "DEFAULT"},
+                                           "cfg": cfg or dict(DEFAULT_CFG),
                                            "argv": render(fields, asg, order, eq)}}
+
+
+def make_case_ext(rng, fields):
+    """a case over extended fields: oracle only (the Lean model has no choice() / List[Literal] fields)"""
+    asg, toks_of = {}, {}
+    for f in fields:
+        special = "choice" in f or is_wrapped_literal(f["ty"])
+        must = f["default"]["kind"] == "missing" and f["ty"]["k"] != "opt"
+        if not (must or rng.random() < 0.6):
+            continue
+        if special:
+            v, toks = gen_special_value(rng, f)
+            asg[f["name"]] = v
+            toks_of[f["name"]] = toks
+        else:
+            for _ in range(20):
+                v = G.literal_expressible(f["ty"], G.gen_value(rng, f["ty"]))
+                if expressible([f], {f["name"]: v}):
+                    asg[f["name"]] = v
+                    break
+            else:
+                if must:
+                    return None
+    for f in fields:   # a token argparse lexes as an option is outside the property
+        if f["name"] in toks_of and toks_of[f["name"]] and not all(G.expressible_token(t) for t in toks_of[f["name"]]):
+            return None
+    order = list(asg)
+    rng.shuffle(order)
+    eq = [rng.random() < 0.5 for _ in order]
+    return {"op": "fields.parse", "model": False,
+            "case": {"fields": fields, "asg": asg, "order": order, "eq": eq, "api": rng.choice(["parse", "parser"]),
+                     "cfg": dict(DEFAULT_CFG), "toks": toks_of, "argv": render(fields, asg, order, eq, toks_of)}}
+
+
+HELP_ACT = {"opts": ["-h", "--help"], "dest": "help", "kind": "help", "nargs": 0, "conv": {"k": "str"}, "choices": None,
+            "required": False, "default": None}
+
+
+def special_engine_case(rng, f=None):
+    """the action the code builds for ONE special field (Props/C02.lean section 9: wrappedLiteralAct / choiceAct), run by
+    the Lean engine, against the real parser of the one-field dataclass"""
+    nm = "val"
+    if f is None:
+        while True:
+            f = gen_special_field(rng, nm)
+            ch = f.get("choice")
+            if (ch is None or ch["kind"] == "plain") and f["default"]["kind"] != "missing":
+                break
+    ch = f.get("choice")
+    if ch is None:
+        act = {"opts": ["--" + nm], "dest": "config." + nm, "kind": "store", "nargs": "?" if f["ty"]["k"] == "opt" else "*",
+               "conv": {"k": "enum", "cls": "Literal", "members": []}, "choices": None, "required": False,
+               "default": f["default"]["v"]}
+        vals = (f["ty"].get("inner") or f["ty"].get("item"))["vals"]
+        pool = [G.token(v) for v in vals] + ["zz", "", "1"]
+    else:
+        act = {"opts": ["--" + nm], "dest": "config." + nm, "kind": "store", "nargs": None, "conv": {"k": "str"},
+               "choices": [o["v"] for o in ch["options"] if o["t"] == "str"], "required": False, "default": f["default"]["v"]}
+        pool = [G.token(o) for o in ch["options"]] + ["zz", "A"]
+    r = rng.random()
+    if r < 0.15:
+        argv = []
+    elif r < 0.25:
+        argv = ["--" + nm]
+    elif r < 0.6 or act["nargs"] != "*":
+        t = rng.choice(pool)
+        argv = [f"--{nm}={t}"] if rng.random() < 0.4 else ["--" + nm, t]
+    else:
+        argv = ["--" + nm] + [rng.choice(pool) for _ in range(rng.choice([1, 2, 3]))]
+    if not all(G.expressible_token(t) for t in argv[1:]):
+        argv = []
+    return {"op": "engine.run", "case": {"table": [HELP_ACT, act], "argv": argv, "strict": True, "src": {"fields": [f]}}}
 
 
 def gen(rng, tier):
     n = 500 if tier == "quick" else 30000
     for i in range(n):
         fields = gen_fields(rng)
-        c = make_case(rng, fields, api=rng.choice(["parse", "parser"]))
+        api = rng.choice(["parse", "parser"])
+        c = make_case(rng, fields, api=api)
+        if api == "parser" and i % 4 == 0:
+            # the parser's own spelling settings: the option strings are written accordingly
+            cfg = {"dash": rng.choice(["UNDERSCORE", "UNDERSCORE_AND_DASH", "DASH"]), "gen": rng.choice(["FLAT", "NESTED", "BOTH"]),
+                   "nest": "DEFAULT"}
+            cc = c["case"]
+            # names with underscores, so that the dash variants differ
+            fields = [dict(f, name=RENAME.get(f["name"], f["name"])) for f in fields]
+            cc.update(fields=fields, asg={RENAME.get(k, k): v for k, v in cc["asg"].items()},
+                      order=[RENAME.get(k, k) for k in cc["order"]])
+            alts = [rng.random() < 0.5 for _ in cc["order"]]
+            cc.update(cfg=cfg, alts=alts, argv=render(fields, cc["asg"], cc["order"], cc["eq"], None, cfg, alts))
         # required fields must be present for the round trip to be defined
         yield c
         # a second permutation / spelling of the same assignment (order / spelling independence)
@@ -149,23 +347,99 @@ def gen(rng, tier):
             order = list(c2["order"])
             rng.shuffle(order)
             eq = [not e for e in c2["eq"]][: len(order)]
-            c2.update(order=order, eq=eq, argv=render(fields, c2["asg"], order, eq), twin_of=c["case"]["argv"])
+            alts = [not a for a in c2["alts"]] if c2.get("alts") else None
+            cfg = c2["cfg"] if c2.get("alts") is not None else None
+            c2.update(order=order, eq=eq, argv=render(fields, c2["asg"], order, eq, None, cfg, alts), twin_of=c["case"]["argv"])
+            if alts is not None:
+                c2["alts"] = alts
             yield {"op": "fields.parse", "case": c2}
     m = 150 if tier == "quick" else 3000
     for _ in range(m):
         yield {"op": "fields.argopts", "case": {"fields": gen_fields(rng)}}
+    # the extended kinds: Optional[Literal], List[Literal], choice(...) — a separate stream so that their open findings
+    # (which make the WHOLE parse exit) never mask the main stream
+    k = 90 if tier == "quick" else 4000
+    for _ in range(k):
+        c = make_case_ext(rng, gen_fields_ext(rng))
+        if c is not None:
+            yield c
+    for _ in range(60 if tier == "quick" else 1500):
+        yield special_engine_case(rng)
 
 
 # -----------------------------------------------------------------------------------------------
+
+
+def add_class_ext(u, fields):
+    """Universe.add_class has no choice() kind: the same construction with simple_parsing.choice for those fields"""
+    import simple_parsing
+    from simple_parsing.helpers import field as sp_field
+
+    out = []
+    for f in fields:
+        d = f["default"]
+        ch = f.get("choice")
+        if ch is not None:
+            kw = {}
+            if ch["kind"] == "plain":
+                if d["kind"] == "value":
+                    kw["default"] = u.val(d["v"])
+                fld = simple_parsing.choice(*[u.val(o) for o in ch["options"]], **kw)
+            elif ch["kind"] == "dict":
+                fld = simple_parsing.choice({k: u.val(v) for k, v in ch["items"]}, default=ch["default_key"])
+            else:
+                fld = simple_parsing.choice(u.enums[ch["cls"]], default=u.val(d["v"]))
+            out.append((f["name"], u.ty(f["ty"]) if f["ty"]["k"] != "any" else object, fld))
+            continue
+        kw = {}
+        if d["kind"] == "value":
+            v = u.val(d["v"])
+            if isinstance(v, (list, dict, set)):
+                kw["default_factory"] = (lambda vv: (lambda: type(vv)(vv)))(v)
+            else:
+                kw["default"] = v
+        extra = {k: f[k] for k in ("help", "metavar") if f.get(k)}
+        fld = sp_field(**kw, **extra) if extra else dataclasses.field(**kw)
+        out.append((f["name"], u.ty(f["ty"]), fld))
+    cls = dataclasses.make_dataclass("C", out)
+    u.classes["C"] = cls
+    return cls
 
 
 def build(fields):
     u = Universe()
     for cls, (members, values) in enums_of(fields).items():
         u.enum(cls, members, values)
+    if any("choice" in f for f in fields):
+        return u, add_class_ext(u, fields)
     spec = {"name": "C", "fields": [dict(f) for f in fields]}
     cls = u.add_class("C", spec)
     return u, cls
+
+
+def exact_type(v):
+    """the EXACT Python type (`type(v)`, not isinstance: a str / int subclass is not "the same Python type")"""
+    import enum as _enum
+    import pathlib
+
+    if isinstance(v, (list, tuple)) and type(v) in (list, tuple):
+        return [type(v).__name__] + [exact_type(x) for x in v]
+    if isinstance(v, pathlib.PurePath):
+        return "path" if type(v) is type(pathlib.Path("x")) else "path-subclass:" + type(v).__name__
+    if isinstance(v, _enum.Enum):
+        return "enum:" + type(v).__name__
+    return type(v).__name__
+
+
+def expected_type(v):
+    t = v["t"]
+    if t in ("list", "tuple"):
+        return [t] + [expected_type(x) for x in v["v"]]
+    if t == "none":
+        return "NoneType"
+    if t == "enum":
+        return "enum:" + v["cls"]
+    return t
 
 
 def run_parse(c, argv):
@@ -183,7 +457,11 @@ def run_parse(c, argv):
         r = sp.run_outcome(lambda: parser.parse_args(argv))
         inst = getattr(r["value"], "config") if r["o"] == "ok" else None
     if r["o"] == "ok":
-        return {"o": "ok", "fields": [[f.name, sp.cv(getattr(inst, f.name))] for f in dataclasses.fields(inst)]}
+        import json
+
+        # (JSON round trip: sp.cv keeps str / int SUBCLASS instances as they are; the exact types are reported apart)
+        return {"o": "ok", "fields": json.loads(json.dumps([[f.name, sp.cv(getattr(inst, f.name))] for f in dataclasses.fields(inst)])),
+                "types": {f.name: exact_type(getattr(inst, f.name)) for f in dataclasses.fields(inst)}}
     return {k: v for k, v in r.items() if k != "value"}
 
 
@@ -221,6 +499,13 @@ def impl(case):
     c = case["case"]
     if case["op"] == "fields.parse":
         return run_parse(c, c["argv"])
+    if case["op"] == "engine.run":
+        # the REAL parser of the one-field dataclass c["src"], observed as the engine's namespace
+        f = c["src"]["fields"][0]
+        r = run_parse({"fields": c["src"]["fields"], "api": "parse", "cfg": DEFAULT_CFG}, c["argv"])
+        if r["o"] == "ok":
+            return {"o": "ok", "ns": [["config." + f["name"], dict(r["fields"])[f["name"]]]]}
+        return r
     # fields.argopts: read the real argparse actions
     u, cls = build(c["fields"])
     sp.reset_globals()
@@ -252,6 +537,8 @@ def model_case(case, obs):
             if d["kind"] != "missing" and d["v"]["t"] == "str":
                 toks.append(d["v"]["v"])
         return {"cfg": c["cfg"], "dest": "config", "fields": c["fields"], "argv": c["argv"], "floats": G.floats_table(toks)}
+    if case["op"] == "engine.run":
+        return {"table": c["table"], "argv": c["argv"], "strict": True, "floats": []}
     return {"fields": c["fields"]}
 
 
@@ -261,6 +548,12 @@ def project(case, obs):
             return {"o": "ok", "fields": obs["fields"]}
         if obs["o"] == "exit":
             return {"o": "exit", "code": obs["code"]}
+        return {"o": "raise", "exc": obs["exc"]}
+    if case["op"] == "engine.run":
+        if obs["o"] == "ok":
+            return {"o": "ok", "ns": obs["ns"]}
+        if obs["o"] == "exit":
+            return {"o": "exit", "code": obs["code"], "kind": obs.get("kind")}
         return {"o": "raise", "exc": obs["exc"]}
     if "setup" in obs:
         return obs
@@ -273,11 +566,17 @@ def project_model(case, mo):
         if mo.get("o") == "exit":
             return {"o": "exit", "code": mo["code"]}
         return mo
+    if case["op"] == "engine.run":
+        if mo.get("o") == "ok":
+            return {"o": "ok", "ns": mo["ns"]}
+        return mo
     for o in mo.get("opts", []):
         if isinstance(o.get("conv"), str):
             for pre in ("union<", "tuple<"):
                 if o["conv"].startswith(pre):
                     o["conv"] = pre[:-1]
+            if o["conv"] == "enum:Literal":   # (a model of `type=Literal[…]`, should Model/Fields.lean adopt one)
+                o["conv"] = "other:Literal"
     return mo
 
 
@@ -287,9 +586,15 @@ def model_unmodelled(mo):
     return any(o.get("unmodelled") for o in mo.get("opts", []) if isinstance(o, dict))
 
 
+def is_union_field(f):
+    return f["ty"]["k"] == "union" or (f["ty"]["k"] == "opt" and f["ty"]["inner"]["k"] == "union")
+
+
 def oracle(case, obs):
     c = case["case"]
     fails = []
+    if case["op"] == "engine.run":
+        return fails   # correspondence only (the property itself is evaluated on the fields.parse cases)
     if case["op"] != "fields.parse":
         if "setup" in obs:
             fails.append({"clause": "setup", "detail": str(obs["setup"])})
@@ -300,18 +605,22 @@ def oracle(case, obs):
         fails.append({"clause": "roundtrip", "detail": f"canonical argv {c['argv']} was not accepted: {obs}"})
         return fails
     got = dict((k, v) for k, v in obs["fields"])
+    types = obs.get("types", {})
     for f in c["fields"]:
         nm = f["name"]
         if nm in c["asg"]:
             exp = c["asg"][nm]
-            if f["ty"]["k"] == "union" or (f["ty"]["k"] == "opt" and f["ty"]["inner"]["k"] == "union"):
+            if is_union_field(f):
                 if not G.value_type_ok(got[nm], f["ty"]):
                     fails.append({"clause": "type", "detail": f"{nm}: {got[nm]} does not conform to {f['ty']}"})
                 continue
             if got[nm] != exp:
                 fails.append({"clause": "roundtrip", "field": nm,
-                              "detail": f"{nm}: wrote {exp} as {G.tokens(exp)}, received {got[nm]} (argv {c['argv']})"})
-        elif f["ty"]["k"] == "union" or (f["ty"]["k"] == "opt" and f["ty"]["inner"]["k"] == "union"):
+                              "detail": f"{nm}: wrote {exp} as {(c.get('toks') or {}).get(nm) or G.tokens(exp)}, received {got[nm]} (argv {c['argv']})"})
+            elif nm in types and types[nm] != expected_type(exp):
+                fails.append({"clause": "same-python-type", "field": nm,
+                              "detail": f"{nm}: wrote {exp}, received an equal value of exact type {types[nm]} (argv {c['argv']})"})
+        elif is_union_field(f):
             continue  # Union is not in the property's list of supported field types: only conformance is checked
         else:
             d = f["default"]
@@ -324,20 +633,63 @@ def oracle(case, obs):
 
 def nontrivial(case, obs):
     c = case["case"]
+    if case["op"] == "engine.run":
+        return bool(c["argv"])
     if case["op"] != "fields.parse":
         return len(c["fields"]) >= 2
     return len(c["asg"]) >= 2 or any(v["t"] in ("list", "tuple", "enum", "none") for v in c["asg"].values())
 
 
+def field_kind(f):
+    if "choice" in f:
+        ch = f["choice"]
+        if ch["kind"] == "plain":
+            ts = {o["t"] for o in ch["options"]}
+            return "choice-" + ("str" if ts == {"str"} else "mixed" if "str" in ts else "nonstr")
+        return "choice-" + ch["kind"]
+    t = f["ty"]
+    k = t["k"]
+    if k == "opt":
+        return "opt-" + t["inner"]["k"]
+    if k == "list" and t["item"]["k"] == "literal":
+        return "list-literal"
+    return k
+
+
 def tags(case, obs):
     c = case["case"]
     t = [f"op:{case['op']}"]
+    if case["op"] == "engine.run":
+        return t + ["out:" + obs["o"], "special:" + field_kind(c["src"]["fields"][0])]
     if case["op"] == "fields.parse":
-        t += [f"set:{len(c['asg'])}", f"fields:{len(c['fields'])}", f"api:{c['api']}", "out:" + obs["o"]]
+        t += [f"set:{len(c['asg'])}", f"fields:{len(c['fields'])}", f"api:{c['api']}", "out:" + obs["o"],
+              "cfg:" + c["cfg"]["dash"] + "/" + c["cfg"]["gen"]]
+        if c.get("twin_of") is not None:
+            t.append("twin")
+        if c.get("alts") and any(c["alts"]):
+            t.append("alt-option-string")
+        for a in c["argv"]:
+            if a.startswith("-") and "=" in a and not G.is_plain_negative_number(a):
+                t.append("spelling:eq")
+                break
+        if any(not a.startswith("-") or G.is_plain_negative_number(a) for a in c["argv"]):
+            t.append("spelling:spaced")
+        if any(G.is_plain_negative_number(a) or ("=" in a and G.is_plain_negative_number(a.split("=", 1)[1])) for a in c["argv"]):
+            t.append("negative-number")
         for f in c["fields"]:
             if f["name"] in c["asg"]:
-                k = f["ty"]["k"]
-                t.append("ty:" + (k if k != "opt" else "opt-" + f["ty"]["inner"]["k"]))
+                t.append("ty:" + field_kind(f))
+                v = c["asg"][f["name"]]
+                if v["t"] in ("list", "tuple") and not v["v"]:
+                    t.append("empty-container")
+                if v["t"] == "none":
+                    t.append("bare-none")
+                if v["t"] == "str" and v["v"] == "":
+                    t.append("empty-string")
+                if f["ty"]["k"] == "literal" and sum(1 for w in f["ty"]["vals"] if G.token(w) == G.token(v)) > 1:
+                    t.append("literal-collide")
+            else:
+                t.append("unset:" + ("missing" if f["default"]["kind"] == "missing" else f["default"]["v"]["t"]))
     return t
 
 
@@ -345,20 +697,75 @@ def shrink(case):
     if case["op"] != "fields.parse":
         return
     c = case["case"]
+    toks_of = c.get("toks")
+    cfg = c["cfg"] if c.get("alts") is not None else None
+
+    def mk(fields, asg, order, eq, alts):
+        cc = dict(c, fields=fields, asg=asg, order=order, eq=eq, argv=render(fields, asg, order, eq, toks_of, cfg, alts))
+        if alts is not None:
+            cc["alts"] = alts
+        out = {"op": case["op"], "case": cc}
+        if case.get("model") is False:
+            out["model"] = False
+        return out
+
+    def sub(name_out):
+        keep = [i for i, o in enumerate(c["order"]) if o != name_out]
+        order = [c["order"][i] for i in keep]
+        eq = [c["eq"][i] for i in keep]
+        alts = [c["alts"][i] for i in keep] if c.get("alts") is not None else None
+        return order, eq, alts
+
     for i, f in enumerate(c["fields"]):
         if len(c["fields"]) > 1 and not (f["name"] in c["asg"] and len(c["asg"]) == 1):
             fields = c["fields"][:i] + c["fields"][i + 1:]
             asg = {k: v for k, v in c["asg"].items() if k != f["name"]}
-            order = [o for o in c["order"] if o != f["name"]]
-            eq = c["eq"][: len(order)]
-            yield {"op": case["op"], "case": dict(c, fields=fields, asg=asg, order=order, eq=eq, argv=render(fields, asg, order, eq))}
+            order, eq, alts = sub(f["name"])
+            yield mk(fields, asg, order, eq, alts)
     for nm in list(c["asg"]):
         f = next(x for x in c["fields"] if x["name"] == nm)
         if f["default"]["kind"] != "missing" or f["ty"]["k"] == "opt":
             asg = {k: v for k, v in c["asg"].items() if k != nm}
-            order = [o for o in c["order"] if o != nm]
-            eq = c["eq"][: len(order)]
-            yield {"op": case["op"], "case": dict(c, asg=asg, order=order, eq=eq, argv=render(c["fields"], asg, order, eq))}
+            order, eq, alts = sub(nm)
+            yield mk(c["fields"], asg, order, eq, alts)
 
 
-FINDINGS = {}
+# -- open findings (narrow signatures) ---------------------------------------------------------------------------
+
+
+def _wrapped_literal_hit(case, obs, fail):
+    """Optional[Literal] / List[Literal]: `type=` is the typing object → every token is "invalid Literal value" (exit 2);
+    also a STRING default of such a field, which argparse runs through `type=` when the option is absent"""
+    if case["op"] != "fields.parse" or fail.get("clause") != "roundtrip" or "field" in fail:
+        return False
+    if not (obs.get("o") == "exit" and obs.get("code") == 2 and obs.get("kind") == "type"):
+        return False
+    c = case["case"]
+    for f in c["fields"]:
+        if "choice" in f or not is_wrapped_literal(f["ty"]):
+            continue
+        nm = f["name"]
+        if nm in c["asg"]:
+            toks = (c.get("toks") or {}).get(nm)
+            if toks:
+                return True
+        elif f["default"]["kind"] == "value" and f["default"]["v"]["t"] == "str":
+            return True
+    return False
+
+
+def _choice_nonstr_hit(case, obs, fail):
+    """choice(1, 2, 3): `type=str` against the VALUES as `choices` → a non-str option can never be written (exit 2)"""
+    if case["op"] != "fields.parse" or fail.get("clause") != "roundtrip" or "field" in fail:
+        return False
+    if not (obs.get("o") == "exit" and obs.get("code") == 2 and obs.get("kind") == "choice"):
+        return False
+    c = case["case"]
+    return any(f.get("choice", {}).get("kind") == "plain" and f["name"] in c["asg"] and c["asg"][f["name"]]["t"] != "str"
+               for f in c["fields"])
+
+
+FINDINGS = {
+    "C02-wrapped-literal": _wrapped_literal_hit,
+    "C02-choice-nonstr": _choice_nonstr_hit,
+}
